@@ -10,7 +10,7 @@ from .loader import ClassInfo, FuncInfo
 from .path import PathEnd
 from .values import (SEQ, NONE, V, VBool, VBuiltin, VClassRef, VDict, VEnum, VExc, VExt, VFloat, VFuncRef,
                      VInt, VLambda, VList, VNoneT, VOpaque, VOpt, VPrimUnion, VSet, VStr, VStream, VTuple,
-                     ConcObj, SymObj, Unsupported)
+                     ConcObj, SymObj, Unsupported, seq_of_py)
 
 EXC_BASES = {
     "BaseException": None, "Exception": "BaseException", "ValueError": "Exception",
@@ -279,6 +279,46 @@ class Stmts:
             fr.func._loop_order = order  # type: ignore
         return fr.contract.loops.get(order.get(id(node), -1))
 
+    def comp_spec(self, fr: Frame, node: Any) -> Optional[Loop]:
+        """The contract's spec of this list comprehension (numbered like loops, among the list comprehensions)."""
+        f: Optional[Frame] = fr
+        while f is not None and f.func is None:
+            f = f.parent
+        if f is None or f.contract is None or not getattr(f.contract, "comps", None):
+            return None
+        order = getattr(f.func, "_comp_order", None)
+        if order is None:
+            nodes = [n for b in f.func.node.body for n in ast.walk(b) if isinstance(n, ast.ListComp)]
+            nodes.sort(key=lambda n: (n.lineno, n.col_offset))
+            order = {id(n): k + 1 for k, n in enumerate(nodes)}
+            f.func._comp_order = order  # type: ignore
+        return f.contract.comps.get(order.get(id(node), -1))
+
+    def comp_as_loop(self, node: ast.ListComp, spec: Loop, fr: Frame) -> V:
+        """``[e for x in xs if c]`` as ``out = []; for x in xs: if c: out.append(e)`` cut at the invariants of
+        ``spec``; the list being built is visible to the invariants under the ghost name ``spec.acc``."""
+        if len(node.generators) != 1:
+            raise Unsupported("list comprehension with several generators under a loop contract")
+        g = node.generators[0]
+        it = self.ev(g.iter, fr)
+        view = self.iter_view(it, node, fr)
+        fr.env[spec.acc] = VList([])
+        if spec.acc_type is not None:
+            fr.var_types[spec.acc] = spec.acc_type
+        cf = Frame(fr.module, None, {}, fr, fr.extra_modules)
+        cf.depth = fr.depth
+
+        def body() -> None:
+            for c in g.ifs:
+                if not self.path.branch(self.truthy(self.ev(c, cf))):
+                    return
+            out = fr.env[spec.acc]
+            assert isinstance(out, VList)
+            self.list_append(out, self.ev(node.elt, cf), node, fr)
+        self.cut_for(spec, it, view, node, fr, bind=lambda elem: self.assign_target(g.target, elem, cf, node),
+                     run_body=body, default_names=[spec.acc], run_orelse=lambda: None)
+        return fr.env[spec.acc]
+
     def assigned_names(self, body: List[ast.stmt]) -> Tuple[List[str], List[str]]:
         """(rebound names, names mutated through methods/subscripts) in ``body``."""
         rebound: List[str] = []
@@ -545,6 +585,16 @@ class Stmts:
                 self.ex_block(st.orelse, fr)
             return
         # --- cut the loop at its invariant
+        rebound, mutated = self.assigned_names(st.body)
+        self.cut_for(spec, it, view, st, fr,
+                     bind=lambda elem: self.assign_target(st.target, elem, fr, st),
+                     run_body=lambda: self.ex_block(st.body, fr),
+                     default_names=[n for n in rebound + mutated],
+                     run_orelse=lambda: self.ex_block(st.orelse, fr))
+
+    def cut_for(self, spec: Loop, it: V, view: Tuple[Any, ...], st: Any, fr: Frame, bind: Any, run_body: Any,
+                default_names: List[str], run_orelse: Any) -> None:
+        """Cut an iteration over ``view`` at the invariants of ``spec`` (for statements and list comprehensions)."""
         if view[0] == "concrete":
             items = view[1]
             n_term: Any = z3.IntVal(len(items))
@@ -558,7 +608,10 @@ class Stmts:
             n_term, get = view[1], view[2]
         idx = spec.index
         fr.env[idx] = VInt(0)
+        names = (spec.modifies if spec.modifies is not None else list(default_names)) + spec.also_modifies
         fns = self.setup_folds(spec, get, fr)
+        jps = self.setup_join_prefixes(spec, it, st, fr, names)
+        self.setup_list_folds(spec, fr)
         seq_t = it.t if isinstance(it, VStr) else None
         for g in spec.use_gfolds:
             if seq_t is None:
@@ -566,8 +619,6 @@ class Stmts:
             self.gfold_instantiate(g, seq_t, None, NONE, fr, True)
         for nm, ex in spec.invariants:
             self.oblige_spec(nm, ex, "loop-inv-entry", st, fr)
-        rebound, mutated = self.assigned_names(st.body)
-        names = (spec.modifies if spec.modifies is not None else [n for n in rebound + mutated]) + spec.also_modifies
         arbitrary = (not spec.exit_only) and self.path.choose()
         self.do_havoc([n for n in names if n != idx], fr)
         i = z3.Int(self.path.fresh_name(idx))
@@ -579,10 +630,11 @@ class Stmts:
         if arbitrary:
             self.path.assume(i < n_term)
             elem = get(i)
-            self.assign_target(st.target, elem, fr, st)
+            bind(elem)
             for ex in spec.elem_facts:
                 self.assume_spec(ex, fr)
             self.step_folds(fns, i, elem, fr)
+            self.step_join_prefixes(jps, i, st, fr)
             for g in spec.use_gfolds:
                 self.gfold_instantiate(g, seq_t, i, elem, fr, False)
             # pre(...) in body lemmas: the value at the start of the iteration
@@ -594,7 +646,7 @@ class Stmts:
             fr.pres = pres  # type: ignore
             try:
                 try:
-                    self.ex_block(st.body, fr)
+                    run_body()
                 except ContinueEx:
                     pass
             except BreakEx:
@@ -610,7 +662,84 @@ class Stmts:
         if getattr(spec, "skip_exit", False):
             raise PathEnd("the exit path of this loop is covered by a sibling unit")
         self.path.assume(i == n_term)
-        self.ex_block(st.orelse, fr)
+        run_orelse()
+
+    # ---- join prefixes: name(k) = sep.join(xs[:k]) for the iterated list xs
+    def underlying_list(self, it: V) -> Optional[VList]:
+        while isinstance(it, VBuiltin) and it.name == "enumerate-object":
+            it = it.inner  # type: ignore
+        return it if isinstance(it, VList) else None
+
+    def setup_join_prefixes(self, spec: Loop, it: V, node: Any, fr: Frame, modified: List[str]) -> Dict[str, Any]:
+        out: Dict[str, Any] = {}
+        if not spec.join_prefixes:
+            return out
+        lst = self.underlying_list(it)
+        if lst is None:
+            raise Unsupported("join prefixes are defined over an iterated list")
+        for nm in modified:
+            if fr.lookup(nm) is lst:
+                raise Unsupported("join prefix over a list that the loop modifies")
+        for name, sep in spec.join_prefixes.items():
+            f = z3.Function(self.path.fresh_name("joinp_" + name), z3.IntSort(), SEQ)
+            b = VBuiltin("fold:" + name)
+            b.fold = (f, "str")  # type: ignore
+            fr.env[name] = b
+            self.path.add_fact(f(0) == z3.Empty(SEQ))
+            key = "join:" + sep
+            if lst.is_concrete():
+                for k, x in enumerate(lst.tail):
+                    self.path.add_fact(f(k + 1) == self.join_step(f(k), sep, z3.IntVal(k), self.as_str(x, node, fr).t))
+            else:
+                # sep.join(xs) is the prefix at len(xs): one mathematical object
+                whole = self.ensure_join_fold(lst, VStr([sep]), node, fr)
+                self.path.add_fact(f(lst.length()) == whole)
+            out[name] = (f, sep, lst)
+        return out
+
+    def join_step(self, acc: Any, sep: str, k: Any, el: Any) -> Any:
+        if sep == "":
+            return z3.Concat(acc, el)
+        return z3.If(k == 0, el, z3.Concat(acc, seq_of_py(sep), el))
+
+    def step_join_prefixes(self, jps: Dict[str, Any], i: Any, node: Any, fr: Frame) -> None:
+        for name, (f, sep, lst) in jps.items():
+            if lst.is_concrete():
+                continue
+            el = self.as_str(self.list_get(lst, i, node, fr), node, fr).t
+            self.path.add_fact(f(i + 1) == self.join_step(f(i), sep, i, el))
+
+    # ---- boolean folds over list variables, kept by append
+    def setup_list_folds(self, spec: Loop, fr: Frame) -> None:
+        for lname, folds in spec.list_folds.items():
+            lst = fr.lookup(lname)
+            if not isinstance(lst, VList):
+                raise Unsupported(f"list fold over {lname}: not a list")
+            for fname, step_src in folds.items():
+                key = "fold:" + fname
+                lam = self.parse_spec(step_src)
+                assert isinstance(lam, ast.Lambda)
+
+                def step(acc_t: Any, v: V, lam: ast.Lambda = lam) -> Any:
+                    child = Frame(fr.module, None, {}, fr, fr.extra_modules)
+                    child.in_spec = True
+                    child.env[lam.args.args[0].arg] = VBool(acc_t)
+                    child.env[lam.args.args[1].arg] = v
+                    return self.truthy(self.ev(lam.body, child))
+                if not hasattr(lst, "fold_steps"):
+                    lst.fold_steps = {}  # type: ignore
+                lst.fold_steps[key] = step  # type: ignore
+                if key not in lst.folds:
+                    if not lst.is_concrete():
+                        raise Unsupported(f"list fold {fname} over a symbolic list {lname}")
+                    acc: Any = z3.BoolVal(True)
+                    for x in lst.tail:
+                        acc = step(acc, x)
+                    lst.folds[key] = acc
+                b = VBuiltin("lfold:" + fname)
+                b.fold = ("lfold", key)  # type: ignore
+                b.step = step  # type: ignore
+                fr.env[fname] = b
 
     def iter_view(self, it: V, node: Any, fr: Frame) -> Tuple[Any, ...]:
         it = self.unwrap(it, node, fr, "iterated value")
